@@ -71,3 +71,66 @@ pub proof fn lemma_n_lt_p2(n: int)
     lemma2_to64();
     if n > 1 { lemma_n_lt_p2(n - 1); lemma_p2_step(n - 1); }
 }
+// ---- exact powers of two (C14: log2 of an exact power of two is exact) ----
+pub open spec fn is_pow2(x: int) -> bool { exists|e: int| e >= 0 && x == #[trigger] p2(e) }
+pub open spec fn ilog(x: int) -> int { choose|e: int| e >= 0 && x == #[trigger] p2(e) }
+pub proof fn lemma_p2_lt(a: int, b: int)
+    requires 0 <= a < b
+    ensures p2(a) < p2(b)
+{ lemma_pow2_strictly_increases(a as nat, b as nat); }
+pub proof fn lemma_ilog(x: int, e: int)
+    requires e >= 0, x == p2(e)
+    ensures is_pow2(x), ilog(x) == e
+{
+    let e2 = ilog(x);
+    if e2 < e { lemma_p2_lt(e2, e); } else if e < e2 { lemma_p2_lt(e, e2); }
+}
+pub proof fn lemma_ilog_of(x: int)
+    requires is_pow2(x)
+    ensures ilog(x) >= 0, x == p2(ilog(x))
+{ }
+// a power of two in [2^f, ...) has exponent >= f; one that is >= 2^(f+1) has exponent >= f + 1 and halves exactly
+pub proof fn lemma_pow2_halve(e: int, f: int)
+    requires e >= 0, f >= 0, p2(e) >= p2(f)
+    ensures e >= f, p2(e) >= 2 * p2(f) ==> (e >= f + 1 && p2(e) / 2 + p2(e) % 2 == p2(e - 1)), p2(e) < 2 * p2(f) ==> e == f
+{
+    if e < f { lemma_p2_lt(e, f); }
+    lemma_p2_pos(f); lemma_p2_step(f + 1);
+    if e >= f + 1 { lemma_p2_step(e); lemma_p2_mono(f + 1, e); }
+}
+// the operand of log2 seen in the destination layout: a power of two stays one, and below one its reciprocal is the mirrored power
+pub proof fn lemma_log2_pow2_args(xs: int, sf: int, df: int)
+    requires 0 <= sf <= df, is_pow2(xs)
+    ensures ({ let xb = xs * p2(df - sf); let e = ilog(xs);
+               &&& is_pow2(xb) &&& ilog(xb) == e + df - sf
+               &&& (xb < p2(df) ==> (e < sf && is_pow2(R_div(p2(df), xb, df)) && ilog(R_div(p2(df), xb, df)) == df + sf - e)) })
+{
+    lemma_ilog_of(xs);
+    let e = ilog(xs); let xb = xs * p2(df - sf);
+    lemma_p2_add(e, df - sf);
+    lemma_ilog(xb, e + df - sf);
+    if xb < p2(df) {
+        if e + df - sf >= df { lemma_p2_mono(df, e + df - sf); }
+        let k = df + sf - e;
+        assert(e < sf);
+        lemma_p2_add(df, df); lemma_p2_add(k, e + df - sf); lemma_p2_pos(e + df - sf); lemma_p2_pos(k);
+        let num = p2(df) * p2(df);
+        assert(k + (e + df - sf) == df + df);
+        assert(num == p2(k) * xb);
+        assert(num == xb * p2(k)) by (nonlinear_arith) requires num == p2(k) * xb;
+        assert(num >= 0) by (nonlinear_arith) requires num == p2(k) * xb, p2(k) > 0, xb > 0;
+        lemma_div_multiples_vanish(p2(k), xb);
+        assert(num / xb == p2(k));
+        assert(R_div(p2(df), xb, df) == p2(k));
+        lemma_ilog(p2(k), k);
+    }
+}
+// dividing by a positive constant keeps the sign (ln = log2 / LOG2_E)
+pub proof fn lemma_rdiv_sign(a: int, b: int, f: int)
+    requires b > 0, f >= 0
+    ensures a >= 0 ==> R_div(a, b, f) >= 0, a <= 0 ==> R_div(a, b, f) <= 0
+{
+    lemma_p2_pos(f); let n = a * p2(f);
+    if a >= 0 { assert(n >= 0) by (nonlinear_arith) requires n == a * p2(f), a >= 0, p2(f) > 0; lemma_div_pos_is_pos(n, b); }
+    if a <= 0 { assert(-n >= 0) by (nonlinear_arith) requires n == a * p2(f), a <= 0, p2(f) > 0; lemma_div_pos_is_pos(-n, b); }
+}
